@@ -7,6 +7,7 @@
 #include <limits.h>
 #include <fcntl.h>
 
+extern "C" void vf_lib_free(void *);
 namespace {
 struct Local { uint64_t lists = 0, compose_calls = 0, too_small = 0, dissects = 0, splitter = 0, big = 0, big_refused = 0, dropped_items = 0; };
 typedef std::pair<Str, std::pair<bool, Str> > Item;     // key, (has value, value)
@@ -110,6 +111,12 @@ template <class C> struct Runner {
                 if (rc != URI_SUCCESS || !ms) what = fmt("ComposeQueryMallocExMm rc=%d", rc);
                 else { Str got = narrow<C>(ms, ms + std::char_traits<C>::length(ms)); if (got != expect) what = "ComposeQueryMalloc text differs"; led.mm.free(&led.mm, ms); if (what.empty() && !led.live.empty()) what = "blocks outstanding after freeing the composed string"; }
                 if (!led.live.empty() || !led.errors.empty()) led.reset();
+            }
+            // the same through the C library allocator: uriComposeQueryMalloc (both options on) / uriComposeQueryMallocEx
+            if (what.empty()) {
+                C *ms = 0; long bal0 = g_libc.balance; rc = (plus && nb) ? A::ComposeQueryMalloc(&ms, &nodes[0]) : A::ComposeQueryMallocEx(&ms, &nodes[0], plus, nb);
+                if (rc != URI_SUCCESS || !ms) what = fmt("%s rc=%d", (plus && nb) ? "ComposeQueryMalloc" : "ComposeQueryMallocEx", rc);
+                else { Str got = narrow<C>(ms, ms + std::char_traits<C>::length(ms)); if (got != expect) what = "ComposeQueryMalloc[Ex] text '" + esc(got) + "' differs from '" + esc(expect) + "'"; vf_lib_free(ms); if (what.empty() && g_libc.balance != bal0) what = "libc blocks outstanding after freeing the composed string"; }
             }
             GUARD_LEAVE();
             if (!what.empty()) ctx->violation("", enc, what + " list=" + show(L));
